@@ -59,6 +59,7 @@ class Probe:
         self.n_like_calls = 0
         self.n_prior_calls = 0
         self.like_rows = 0
+        self.asked_rows = 0
         self.events = []  # ("L"|"P", rows)
         self.c17 = {"calls": 0, "missing_prior": 0, "len_mismatch": 0, "value_mismatch": 0, "traced": 0}
         self.c17_witness = None
@@ -85,6 +86,7 @@ class Probe:
         self.n_like_calls += 1
         for ob in self.observers:
             ob("L", k, samples)
+        self.asked_rows += int(samples.x.shape[0])  # points the callable was asked for, whether or not it then fails
         if self.fault_like_at is not None and k == self.fault_like_at:
             raise InjectedFault(f"likelihood call {k}")
         x = samples.x
